@@ -1,6 +1,7 @@
 // Harness for memory_stack<>: stack <block_size> <grow|fixed>
 // ops: a size al | t size al | top | unwind k | shrink | q | fail k | mv | ma | badunwind kind | destroy
 #include "hcommon.hpp"
+#include <deque>
 #include "memory_stack.hpp"
 #include <csignal>
 #include <unistd.h>
@@ -33,10 +34,27 @@ int run_script(std::size_t block_size, const std::string& header)
             for (std::size_t i = 0; i < l.size; ++i) if (p[i] != (unsigned char)(l.pat + 3 * i)) { std::printf("corrupt off=%zu size=%zu at=%zu %s\n", l.off, l.size, i, when); break; } }
     };
     std::string line;
-    while (std::getline(std::cin, line))
+    // raii2: an unwind guard that was moved from is destroyed BEFORE its target, with allocations made in between; the guard
+    // that holds the marker now is destroyed last.  Expressed as ordinary lines (top / a / a / unwind) so that model and oracle
+    // see what a correct library does: the moved-from guard does nothing.
+    std::deque<std::string> pending; memory_stack_raii_unwind<Stack>* g_source = nullptr; memory_stack_raii_unwind<Stack>* g_target = nullptr;
+    while (!pending.empty() || std::getline(std::cin, line))
     {
+        if (!pending.empty()) { line = pending.front(); pending.pop_front(); }
+        if (line == "@delsource") { delete g_source; g_source = nullptr; continue; }
+        bool by_guard = false;
+        if (line == "@deltarget") { by_guard = true; line = "unwind " + std::to_string(markers.size() - 1); }
         std::istringstream is(line); std::string op; is >> op;
         if (op.empty()) continue;
+        if (op == "raii2")
+        {
+            if (g_target || !pending.empty()) { std::printf("%s = skipped\n", line.c_str()); continue; }
+            g_target = new memory_stack_raii_unwind<Stack>(*st, st->top());
+            g_source = new memory_stack_raii_unwind<Stack>(*st, st->top());
+            *g_target = std::move(*g_source);
+            pending = {"top", "a 40 8", "@delsource", "a 24 8", "@deltarget"};
+            continue;
+        }
         if (op[0] == '#') { std::printf("%s\n", line.c_str()); continue; }
         long oom0 = hc().oom, bad0 = hc().bad_size;
         std::string res;
@@ -101,6 +119,7 @@ int run_script(std::size_t block_size, const std::string& header)
             std::size_t k; is >> k;
             if (k >= markers.size()) { std::printf("%s = skipped\n", line.c_str()); continue; }
             check("before-unwind");
+            if (by_guard) { delete g_target; g_target = nullptr; } else
             st->unwind(markers[k].m);
             live.resize(std::min(live.size(), markers[k].nlive));
             markers.erase(markers.begin() + long(k) + 1, markers.end());
